@@ -316,3 +316,102 @@ func VerifC11NilOutput() {
 	vassert(seen == 1, "the post-handler runs after its node also when the node returned a nil interface value")
 	vassert(got == "fallback" && out == "fallback", "successors receive what the post-handler returned")
 }
+
+type c11Deep struct{ N int }
+
+// Two stateful graphs side by side below 2-4 wrapping graphs (node paths of length 3-5), both interrupted and resumed with a state modifier: the
+// modifier is called once for each of them, with that graph's own node path, and its change reaches that graph.
+func VerifC11DeepModifier() {
+	ctx := context.Background()
+	vcfg("fifo", 1)
+	_ = RegisterSerializableType[c11Deep]("c11_deep")
+	seen := map[string]int{}
+	mkLeaf := func(tag string) AnyGraph {
+		g := NewGraph[map[string]any, map[string]any](WithGenLocalState(func(ctx context.Context) *c11Deep { return &c11Deep{} }))
+		_ = g.AddLambdaNode("p", InvokableLambda(func(ctx context.Context, in map[string]any) (map[string]any, error) { return in, nil }))
+		_ = g.AddLambdaNode("q", InvokableLambda(func(ctx context.Context, in map[string]any) (map[string]any, error) {
+			n := 0
+			_ = ProcessState(ctx, func(ctx context.Context, s *c11Deep) error { n = s.N; return nil })
+			vMu.Lock()
+			seen[tag] = n
+			vMu.Unlock()
+			return map[string]any{tag: n}, nil
+		}))
+		_ = g.AddEdge(START, "p")
+		_ = g.AddEdge("p", "q")
+		_ = g.AddEdge("q", END)
+		return g
+	}
+	leafOpt := WithGraphCompileOptions(WithInterruptBeforeNodes([]string{"q"}))
+	c := NewGraph[map[string]any, map[string]any]()
+	_ = c.AddGraphNode("d1", mkLeaf("d1"), leafOpt)
+	_ = c.AddGraphNode("d2", mkLeaf("d2"), leafOpt)
+	_ = c.AddEdge(START, "d1")
+	_ = c.AddEdge(START, "d2")
+	_ = c.AddEdge("d1", END)
+	_ = c.AddEdge("d2", END)
+	wrap := func(key string, inner AnyGraph) AnyGraph {
+		g := NewGraph[map[string]any, map[string]any]()
+		_ = g.AddGraphNode(key, inner)
+		_ = g.AddEdge(START, key)
+		_ = g.AddEdge(key, END)
+		return g
+	}
+	m1, m2 := vsymInt("m1"), vsymInt("m2")
+	depth := 2 + vchoose("depth", 3) // number of wrapping levels above the two stateful graphs: 2, 3 or 4
+	keys := []string{"c", "b", "a", "z"}[:depth]
+	var top AnyGraph = c
+	prefix := ""
+	for _, k := range keys {
+		top = wrap(k, top)
+		prefix = k + "/" + prefix
+	}
+	store := &vStoreLite{m: map[string][]byte{}}
+	r, err := top.(*Graph[map[string]any, map[string]any]).Compile(ctx, WithCheckPointStore(store))
+	vassert(err == nil, "nested graphs compile")
+	in := map[string]any{"in": 1}
+	_, e1 := r.Invoke(ctx, in, WithCheckPointID("deep"))
+	_, ok := ExtractInterruptInfo(e1)
+	vassert(ok, "both inner graphs interrupt")
+	var paths []string
+	out, e2 := r.Invoke(ctx, in, WithCheckPointID("deep"), WithStateModifier(func(ctx context.Context, path NodePath, state any) error {
+		p := ""
+		for _, k := range path.path {
+			p += k + "/"
+		}
+		vMu.Lock()
+		paths = append(paths, p)
+		vMu.Unlock()
+		if s, ok := state.(*c11Deep); ok {
+			if len(path.path) > 0 && path.path[len(path.path)-1] == "d1" {
+				s.N = m1
+			} else {
+				s.N = m2
+			}
+		}
+		return nil
+	}))
+	vassert(e2 == nil, "the resumed run completes")
+	n1, n2 := 0, 0
+	for _, p := range paths {
+		if p == prefix+"d1/" {
+			n1++
+		}
+		if p == prefix+"d2/" {
+			n2++
+		}
+	}
+	vassert(n1 == 1 && n2 == 1, "the state modifier is called once for each stateful nested graph with that graph's own node path")
+	vassert(out["d1"] == m1 && out["d2"] == m2 && seen["d1"] == m1 && seen["d2"] == m2, "each nested graph continues on its own state as changed by the caller's modifier")
+}
+
+type vStoreLite struct{ m map[string][]byte }
+
+func (s *vStoreLite) Get(ctx context.Context, id string) ([]byte, bool, error) {
+	b, ok := s.m[id]
+	return b, ok, nil
+}
+func (s *vStoreLite) Set(ctx context.Context, id string, b []byte) error {
+	s.m[id] = append([]byte{}, b...)
+	return nil
+}
